@@ -8,6 +8,8 @@ Decided:
          project.tasks in placement code selects tasks by identity of an edge's predecessor with this task
   R09.3  the horizon extension (the only project-wide aggregate) can only move the project end later
   R09.4  attribute inheritance (priority) is transitive: values the parent inherited are passed on like provided ones
+  R09.5  every priority of the valid range 1..1000 is stored by the parser (boundary values included)
+  R09.6  no task identity through the local id in scheduling code (shared rule)
 Not decided: the two-run non-interference relation itself.
 """
 from __future__ import annotations
@@ -118,5 +120,37 @@ def run(ctx: Ctx):
     if n_inh < 2:
         raise AnchorMissing(f"inheritAttributes: {n_inh} parent inheritance sites found")
     ctx.floor("R09.4", 2)
+    # ---------------------------------------------------------------- R09.5 every valid priority reaches the model
+    # the whole range 1..1000 must be stored as written: a guard in the parser branch that skips the store may not reject
+    # 1, 500 or 1000 (boundary values decide "strictly lowest priority")
+    from ..order import eval_points
+    ap = repo.func("ModelBuilder._apply_property_attributes")
+    branches = [i for i in own_nodes(ap) if isinstance(i, ast.If) and norm(i.test).replace("'", '"') == 'key == "priority"']
+    if not branches:
+        raise AnchorMissing("_apply_property_attributes: priority branch not found")
+    for br in branches:
+        stores = [x for st in br.body for x in ast.walk(st) if isinstance(x, ast.Assign) and "priority" in norm(x.targets[0])]
+        guards = [x for st in br.body for x in ast.walk(st) if isinstance(x, ast.If) and any(isinstance(n_, ast.Name) and n_.id == "value" for n_ in ast.walk(x.test))]
+        ok = bool(stores)
+        why = ""
+        for gd in guards:
+            skips = any(isinstance(y, (ast.Continue, ast.Return, ast.Raise, ast.Break)) for st in gd.body for y in ast.walk(st))
+            holds_store = any(x in list(ast.walk(gd)) for x in stores)
+            for pt in (1, 500, 1000):
+                v = eval_points(gd.test, [(lambda e: isinstance(e, ast.Name) and e.id == "value", pt)])
+                if v is None:
+                    from ..model import Inconclusive
+                    raise Inconclusive(f"_apply_property_attributes: priority guard {norm(gd.test)} cannot be evaluated")
+                if (skips and v is True) or (holds_store and not skips and v is False):
+                    ok = False
+                    why = f"priority {pt} is not stored (guard {norm(gd.test)})"
+        ctx.ob("R09.5", f"{ap.qual}: priority stored for the whole range 1..1000", (ap, br), ok,
+               "the declared priority is stored unconditionally or under a guard that accepts 1, 500 and 1000" if ok else
+               f"{why}: the task silently keeps the default 500 and competes as a middle-priority task",
+               key="R09.5|_apply_property_attributes|priority range")
+    # ---------------------------------------------------------------- R09.6 task identity (terminal test of the backward pass)
+    from .common import local_id_identity_rule
+    local_id_identity_rule(ctx, "R09.6", ("core/project.py", "core/task_scenario.py", "core/task.py"),
+                           "a task added elsewhere in the tree then changes which of the existing tasks count as terminal")
     ctx.floor("R09.1", 10)
     ctx.floor("R09.2", 2)
